@@ -1,7 +1,8 @@
 (* C13 — property theorems only: pinned statement, `exact`, Print Assumptions. *)
 From Coq Require Import List NArith Bool.
 Import ListNotations.
-From L4 Require Import Common.Str Model.ConfigBuild Proofs.ConfigBuild.
+From L4 Require Import Common.Str Model.ConfigBuild Proofs.ConfigBuild Proofs.ConfigInstall Proofs.ConfigErrors.
+From L4 Require Model.Routing.
 Local Open Scope N_scope.
 
 (* check_logger_name accepts exactly: non-empty, last character not ':', no three
@@ -67,6 +68,52 @@ Theorem C13_result_valid :
 Proof. exact result_valid. Qed.
 Print Assumptions C13_result_valid.
 
+(* The reported errors (the strict path returns the same list), error by error: an error names an item exactly when
+   that item offends - an appender name at a position with an earlier occurrence; a reference (of the root, or of a
+   logger that is itself kept: first occurrence of a well-formed name) to a name no appender has; a logger whose
+   name occurred before; the first occurrence of a malformed logger name.  No innocent item is ever named, and no
+   offending item goes unnamed. *)
+Theorem C13_errors_exactly_the_offenders :
+  forall apps lvl root_refs ls e,
+    In e (snd (build_lossy apps lvl root_refs ls)) <->
+    match e with
+    | DuplicateAppenderName a => repeated a apps
+    | NonexistentAppender r =>
+        ~ In r apps /\
+        (In r root_refs \/
+         exists pre l post, ls = pre ++ l :: post /\ ~ In (lname l) (map lname pre) /\
+                            check_name (lname l) = true /\ In r (lapps l))
+    | DuplicateLoggerName n => exists pre l post, ls = pre ++ l :: post /\ lname l = n /\ In n (map lname pre)
+    | InvalidLoggerName n =>
+        exists pre l post, ls = pre ++ l :: post /\ lname l = n /\ ~ In n (map lname pre) /\ check_name n = false
+    end.
+Proof. exact errors_exactly_the_offenders. Qed.
+Print Assumptions C13_errors_exactly_the_offenders.
+
+(* Strict building succeeds exactly when lossy building reports nothing, and then returns the same configuration *)
+Theorem C13_strict_iff_lossy_clean :
+  forall apps lvl root_refs ls c,
+    build apps lvl root_refs ls = Some c <-> build_lossy apps lvl root_refs ls = (c, []).
+Proof. exact build_is_lossy_clean. Qed.
+Print Assumptions C13_strict_iff_lossy_clean.
+
+(* The lossy result is a fixed point: it passes the strict path unchanged *)
+Theorem C13_lossy_result_passes_strict :
+  forall apps lvl root_refs ls,
+    let c := fst (build_lossy apps lvl root_refs ls) in
+    build (c_appenders c) (c_root_level c) (c_root_apps c) (c_loggers c) = Some c.
+Proof. exact lossy_result_passes_strict. Qed.
+Print Assumptions C13_lossy_result_passes_strict.
+
+(* "any configuration returned by either path can be installed": C01's model of SharedLogger::new (Routing.build,
+   None = the appender map is indexed with a name it does not hold, a panic in the code) succeeds on it *)
+Theorem C13_returned_config_installs :
+  forall apps lvl root_refs ls,
+    (exists t, Routing.build (to_routing (fst (build_lossy apps lvl root_refs ls))) = Some t) /\
+    (forall c, build apps lvl root_refs ls = Some c -> exists t, Routing.build (to_routing c) = Some t).
+Proof. intros apps lvl root_refs ls. split; [apply lossy_result_installs|intros c; apply strict_result_installs]. Qed.
+Print Assumptions C13_returned_config_installs.
+
 (* Non-vacuity / regression examples *)
 Example C13_names :
   map check_name [[97]; [97;58;58;98]; [58;58;97]; []; [58;58]; [97;58;58]; [97;58;98]; [97;58;58;58;98];
@@ -82,3 +129,19 @@ Example C13_lossy_example :
      [DuplicateAppenderName [97]; NonexistentAppender [99]; NonexistentAppender [122];
       DuplicateLoggerName [120]; InvalidLoggerName [58]]).
 Proof. vm_compute. reflexivity. Qed.
+
+(* the errors of the example above, read through C13_errors_exactly_the_offenders: [97] is repeated, [99] and [122]
+   name no appender ([122] is referenced by the KEPT first logger [120]), the second [120] repeats a name, [58] is
+   malformed; and the lossy result installs *)
+Example C13_errors_example :
+  let lg n a := {| lname := n; llevel := 3; lapps := a; ladditive := true |} in
+  repeated [97] [[97]; [98]; [97]] /\ ~ repeated [98] [[97]; [98]; [97]] /\
+  Routing.build (to_routing (fst (build_lossy [[97]; [98]; [97]] 2 [[98]; [99]]
+                   [lg [120] [[97]; [122]]; lg [120] []; lg [58] [[97]]; lg [121] [[98]]]))) <> None.
+Proof.
+  cbv zeta. split; [exists [[97]; [98]], []; split; [reflexivity|left; reflexivity]|]. split.
+  - intros (pre & post & E & H). destruct pre as [|a [|b [|c pre]]]; cbn in E; inversion E; subst; cbn in H; try tauto.
+    + destruct H as [H|[]]; discriminate.
+    + destruct pre; discriminate.
+  - vm_compute. discriminate.
+Qed.
